@@ -57,7 +57,8 @@ fn setup_output_path(dir: &Path, kind: &str, input: &Path, variant: usize) -> Op
         "existing" => {
             // every third time the existing output file is the input file itself
             if variant % 3 == 2 && input.is_file() {
-                return Some(input.to_path_buf());
+                // ... sometimes in another spelling of the same path
+                return Some(if variant % 2 == 0 { input.to_path_buf() } else { dir.join(".").join(input.file_name().unwrap()) });
             }
             let p = dir.join("out.rs");
             std::fs::write(&p, sentinel()).unwrap();
